@@ -371,17 +371,30 @@ func ruleR013(c *Ctx) {
 			}
 			// find AddArgs / AddThis in the identifiers expression of that parse call
 			var argsCall, thisCall *ast.CallExpr
+			// the scope may be held in a local variable: look at its definition as well
+			var scopeExprs []ast.Node
+			scopeExprs = append(scopeExprs, as.Rhs[0])
 			ast.Inspect(as.Rhs[0], func(y ast.Node) bool {
-				if call, ok := y.(*ast.CallExpr); ok {
-					if isCallTo(info, call, addArgs) {
-						argsCall = call
-					}
-					if isCallTo(info, call, addThis) {
-						thisCall = call
+				if id, ok := y.(*ast.Ident); ok && isNamed(info.TypeOf(id), modPath, "Identifiers") {
+					if das, di := definingAssign(info, decl, info.ObjectOf(id)); das != nil && len(das.Rhs) == len(das.Lhs) {
+						scopeExprs = append(scopeExprs, das.Rhs[di])
 					}
 				}
 				return true
 			})
+			for _, se := range scopeExprs {
+				ast.Inspect(se, func(y ast.Node) bool {
+					if call, ok := y.(*ast.CallExpr); ok {
+						if isCallTo(info, call, addArgs) {
+							argsCall = call
+						}
+						if isCallTo(info, call, addThis) {
+							thisCall = call
+						}
+					}
+					return true
+				})
+			}
 			if argsCall == nil || len(argsCall.Args) != 2 {
 				c.Violation(key, cl.Pos(), "the body %s of the closure literal was parsed without an AddArgs scope: outer identifiers are not recorded", fv.Name)
 				return true
